@@ -1,7 +1,7 @@
 (* Proof/TrajP.v — the assembled loop body (Model/Traj.step): what a pass does to the nuclear
    variables, and exact energy conservation across the hop part of the pass. *)
 From Coq Require Import Reals ZArith List Lra Lia Bool Setoid Morphisms.
-From MV Require Import Ops RInst Vec Cplx Mat CRing MatP Poisson Hop Hopper Propagate Traj HopP PropagateP Rk4P ReverseP Ehrenfest Cumulative.
+From MV Require Import Ops RInst Vec Cplx Mat CRing MatP Poisson Hop Hopper Propagate Traj HopP PropagateP Rk4P ReverseP Ehrenfest Cumulative Events.
 Import ListNotations.
 Open Scope R_scope.
 
@@ -414,4 +414,39 @@ Proof.
     injection H as Hs _ _ Ht Hacc'. subst. cbn [pv pact].
     destruct (hop_rejected_identity m v1 _ _ (pact s) t a' v2 Eht) as [-> ->]. reflexivity.
   - destruct (step_nuclear n m dt poisson zeta e0 e1 lam Cm s s' W hp None H) as (_ & _ & _ & En). destruct (En eq_refl) as [-> ->]. reflexivity.
+Qed.
+
+(* ---- the active column of a run is the one the event-log model reconstructs ---- *)
+Definition toatt (a : option (nat * bool)) : attempt := match a with None => NoAttempt | Some (t, ok) => Attempt t ok end.
+
+Lemma follow_step a att rest : follow (follow a [att]) rest = follow a (att :: rest).
+Proof. reflexivity. Qed.
+Lemma follow_toatt a att : follow a [att] = Events.step_active a (toatt att).
+Proof. destruct att as [[t [|]]|]; reflexivity. Qed.
+
+(* the active column that Events.run_from reconstructs from the attempts is, entry by entry, `follow` of the attempts so far *)
+Lemma events_acts_nth (atts : list (option (nat * bool))) : forall k a i d, (i < length atts)%nat ->
+  nth i (fst (run_from k a (map toatt atts))) d = follow a (firstn (S i) atts).
+Proof.
+  induction atts as [|att rest IH]; intros k a i d Hi; cbn [length] in Hi; [lia|].
+  cbn [map run_from]. destruct (run_from (S k) (Events.step_active a (toatt att)) (map toatt rest)) as [acts evs] eqn:E.
+  cbn [fst]. destruct i as [|i].
+  - cbn [nth firstn]. symmetry. apply follow_toatt.
+  - cbn [nth]. change (firstn (S (S i)) (att :: rest)) with (att :: firstn (S i) rest).
+    rewrite <- follow_step, follow_toatt.
+    specialize (IH (S k) (Events.step_active a (toatt att)) i d ltac:(lia)). rewrite E in IH. exact IH.
+Qed.
+
+(* the state after the first i+1 passes of a run carries exactly that entry *)
+Theorem run_active_column n m dt poisson (ds : list (sdata (T:=R))) (s sf : tstate (T:=R)) atts k i d :
+  run ROps n m dt poisson ds s = (sf, atts) -> (i < length ds)%nat ->
+  pact (fst (run ROps n m dt poisson (firstn (S i) ds) s)) = nth i (fst (run_from k (pact s) (map toatt atts))) d.
+Proof.
+  intros H Hi. rewrite <- (firstn_skipn (S i) ds) in H. rewrite run_app in H.
+  destruct (run ROps n m dt poisson (firstn (S i) ds) s) as [s1 a1] eqn:E1.
+  destruct (run ROps n m dt poisson (skipn (S i) ds) s1) as [s2 a2] eqn:E2. injection H as _ <-.
+  destruct (run_invariants n m dt poisson _ s s1 a1 E1) as (L1 & _ & _ & A1). cbn [fst].
+  assert (length a1 = S i) as La by (rewrite L1, firstn_length; lia).
+  rewrite events_acts_nth by (rewrite app_length; lia).
+  rewrite firstn_app. replace (S i - length a1)%nat with 0%nat by lia. rewrite <- La, firstn_all. cbn [firstn]. rewrite app_nil_r. exact A1.
 Qed.
